@@ -176,6 +176,8 @@ MutMenu ==
   \cup {Mu("trunc", i, 0, 0) : i \in 0..(NI - 1)}                   \* only the first i items kept
   \* byte-level truncation: inside item i, keeping 1 byte (b = 1) / all but 1 byte (b = 2) of it
   \cup {Mu("truncIn", i, b, 0) : i \in 1..NI, b \in {1, 2}}
+  \* bit 7 of the last byte of item i flipped (a different value: r + 2^255, the other sign, another coordinate)
+  \cup {Mu("flipTop", i, 0, 0) : i \in 1..NI}
   \* the proof loses its trailing bytes, all of which are 0x00 (a short read must not be taken for zero padding)
   \cup {Mu("truncZeroTail", 0, 0, 0)}
   \cup NameMenu                                                     \* other protocol name
@@ -197,7 +199,8 @@ MutOK(m) ==
     [] m.k = "chbase"     -> m.b <= Len(tree[m.a]) /\ m.c <= Len(tree[m.a][m.b]) /\ NB >= 2
     [] m.k = "dropRep"    -> Len(tree[m.a]) >= 2
     [] m.k = "dropBranch" -> NBr >= 2
-    [] m.k = "simAll"     -> NBr >= 2
+    [] m.k = "simAll"     -> NBr >= 2 /\ nest = 0
+    [] m.k = "replayCh"   -> nest = 0
     [] m.k = "name"       -> (m.a \in {1, 3} => nlen >= 1) /\ (m.a = 2 => nlen >= 65)
     [] m.k = "swapBranch" -> tree[m.a] # tree[m.a + 1]
     [] m.k = "swapRep"    -> m.b + 1 <= Len(tree[m.a]) /\ tree[m.a][m.b] # tree[m.a][m.b + 1]
